@@ -126,6 +126,13 @@ def inline_crate(j):
         while bi < len(f['blocks']):
             b = f['blocks'][bi]
             t = b['term']
+            if t['t'] == 'call' and (t['callee'].get('def') or '') == 'std::iter::Iterator::try_for_each' and len(t['args']) == 2 and \
+                    str(t['dest'].get('ty', '')).startswith('std::result::Result<(), '):
+                if _for_each_to_loop(f, bi, by_name, inline_fn, stack, depth, try_=True):
+                    stats['inlined'] += 1
+                    stats['sites'].append('%s <- for_each' % f['name'])
+                    bi += 1
+                    continue
             if t['t'] == 'call' and (t['callee'].get('def') or '') == 'std::iter::Iterator::fold' and len(t['args']) == 3:
                 if _for_each_to_loop(f, bi, by_name, inline_fn, stack, depth, fold=True):
                     stats['inlined'] += 1
@@ -409,7 +416,9 @@ def _splice(f, bi, g, how):
             # parameters of a closure env (captures) keep their projections; only locals are renumbered
             d2['v']['l'] += dl
             if how == 'closure' and d['v']['l'] == 1 and d['v'].get('p'):
-                continue    # captured-variable names of the inlined closure: not meaningful in the caller
+                continue
+            if 1 <= d['v']['l'] <= argc and not d['v'].get('p'):
+                continue    # parameters of the inlined callee are plain copies of the arguments: anonymous temporaries    # captured-variable names of the inlined closure: not meaningful in the caller
             f['debug'].append(d2)
     f['blocks'][bi]['stmts'].extend(pre)
     f['blocks'][bi]['term'] = {'t': 'goto', 'to': db}
@@ -434,7 +443,7 @@ def _closure_def(f, op):
     return None, None
 
 
-def _for_each_to_loop(f, bi, by_name, inline_fn, stack, depth, fold=False):
+def _for_each_to_loop(f, bi, by_name, inline_fn, stack, depth, fold=False, try_=False):
     """`iter.for_each(closure)` (std Iterator, closure built in this function, or a fn item) is the loop
     `while let Some(x) = iter.next() { closure(x) }`: rewrite the call into exactly the MIR shape of a
     `for` loop, with the closure body spliced in, so that rules see one form for both spellings."""
@@ -464,7 +473,7 @@ def _for_each_to_loop(f, bi, by_name, inline_fn, stack, depth, fold=False):
             return False
         inline_fn(g, stack | {g['name']}, depth + 1)
         item_ty = g['locals'][3 if fold else 2]['ty']
-    if fold and g is None:
+    if (fold or try_) and g is None:
         return False
     L = len(f['locals'])
     l_it, l_ref, l_opt, l_d, l_unit = L, L + 1, L + 2, L + 3, L + 4
@@ -479,18 +488,38 @@ def _for_each_to_loop(f, bi, by_name, inline_fn, stack, depth, fold=False):
                      'args': [{'o': 'move', 'pl': pl(l_ref, '&mut ' + it_ty)}], 'dest': pl(l_opt, 'std::option::Option<%s>' % item_ty), 'to': bS, 'line': line, 'exp': True}}
     none_target = cont
     l_acc = None
+    l_res = None
+    if try_:
+        # `iter.try_for_each(|x| -> Result<(), E>)`: stop at the first Err and return it; Ok(()) on exhaustion
+        res_ty = t['dest']['ty']
+        l_res = len(f['locals'])
+        f['locals'].append({'ty': res_ty, 'adt': 'std::result::Result'})
+        f['locals'].append({'ty': 'isize', 'adt': ''})
+        f['locals'].append({'ty': '()', 'adt': ''})
+        bBody += 3      # exit-ok block, result-switch block, exit-err block
     if fold:
         acc_ty = g['locals'][2]['ty']
         l_acc = len(f['locals'])
         f['locals'].append({'ty': acc_ty, 'adt': ''})
         bBody += 1      # one extra block: the exit that hands the accumulator to fold's destination
     blkS = {'cleanup': False, 'stmts': [{'s': 'assign', 'pl': pl(l_d, 'isize'), 'rv': {'r': 'discr', 'pl': pl(l_opt, 'std::option::Option<%s>' % item_ty), 'adt': 'std::option::Option'}, 'line': line, 'exp': True}],
-            'term': {'t': 'switch', 'd': {'o': 'move', 'pl': pl(l_d, 'isize')}, 'targets': [['0', (B + 3) if fold else cont], ['1', bBody]], 'otherwise': bU, 'line': line, 'exp': True}}
+            'term': {'t': 'switch', 'd': {'o': 'move', 'pl': pl(l_d, 'isize')}, 'targets': [['0', (B + 3) if (fold or try_) else cont], ['1', bBody]], 'otherwise': bU, 'line': line, 'exp': True}}
     blkU = {'cleanup': False, 'stmts': [], 'term': {'t': 'unreachable'}}
     item = {'o': 'move', 'pl': pl(l_opt, item_ty, [{'k': 'downcast', 'v': 1, 'n': 'Some'}, {'k': 'field', 'i': 0, 'n': '0'}])}
     f['blocks'].extend([blkH, blkS, blkU])
     if fold:
         f['blocks'].append({'cleanup': False, 'stmts': [{'s': 'assign', 'pl': copy.deepcopy(t['dest']), 'rv': {'r': 'use', 'a': {'o': 'move', 'pl': pl(l_acc, acc_ty)}}, 'line': line, 'exp': True}],
+                            'term': {'t': 'goto', 'to': cont}})
+    if try_:
+        unit = {'o': 'const', 'c': {'k': 'val', 'v': None, 'ty': '()', 's': 'const ()'}}
+        # B+3: exhaustion -> dest = Ok(())
+        f['blocks'].append({'cleanup': False, 'stmts': [{'s': 'assign', 'pl': copy.deepcopy(t['dest']), 'rv': {'r': 'agg', 'kind': {'k': 'adt', 'path': 'std::result::Result', 'variant': 'Ok', 'fields': ['0']}, 'ops': [unit]}, 'line': line, 'exp': True}],
+                            'term': {'t': 'goto', 'to': cont}})
+        # B+4: switch on the closure's result
+        f['blocks'].append({'cleanup': False, 'stmts': [{'s': 'assign', 'pl': pl(l_res + 1, 'isize'), 'rv': {'r': 'discr', 'pl': pl(l_res, res_ty), 'adt': 'std::result::Result'}, 'line': line, 'exp': True}],
+                            'term': {'t': 'switch', 'd': {'o': 'move', 'pl': pl(l_res + 1, 'isize')}, 'targets': [['0', bH], ['1', B + 5]], 'otherwise': bU, 'line': line, 'exp': True}})
+        # B+5: Err -> dest = that result
+        f['blocks'].append({'cleanup': False, 'stmts': [{'s': 'assign', 'pl': copy.deepcopy(t['dest']), 'rv': {'r': 'use', 'a': {'o': 'move', 'pl': pl(l_res, res_ty)}}, 'line': line, 'exp': True}],
                             'term': {'t': 'goto', 'to': cont}})
     if fn_item is not None:
         c = {'def': fn_item['path'], 'args': fn_item.get('args', []), 'resolved': False, 'path': fn_item['path'], 'local': True, 'krate': ''}
@@ -507,8 +536,8 @@ def _for_each_to_loop(f, bi, by_name, inline_fn, stack, depth, fold=False):
         else:
             env = {'o': 'move', 'pl': pl(cb_op['pl']['l'], cb_op['pl']['ty'])}
         cargs = [env, {'o': 'copy', 'pl': pl(l_acc, acc_ty)}, item] if fold else [env, item]
-        cdest = pl(l_acc, acc_ty) if fold else pl(l_unit, '()')
-        stub = {'cleanup': False, 'stmts': stmts, 'term': {'t': 'call', 'callee': {'def': g['name'], 'path': g['name'], 'local': True}, 'args': cargs, 'dest': cdest, 'to': bH, 'line': line, 'exp': False}}
+        cdest = pl(l_acc, acc_ty) if fold else (pl(l_res, res_ty) if try_ else pl(l_unit, '()'))
+        stub = {'cleanup': False, 'stmts': stmts, 'term': {'t': 'call', 'callee': {'def': g['name'], 'path': g['name'], 'local': True}, 'args': cargs, 'dest': cdest, 'to': (B + 4) if try_ else bH, 'line': line, 'exp': False}}
         f['blocks'].append(stub)
         if not _splice(f, bBody, g, 'fn'):
             return False
